@@ -145,7 +145,24 @@ def run(facts, rep, tier):
     rep.rule("R11.1", "frames change only the parameters their format carries", "P")
     rep.rule("R11.2", "a new value never depends on the old value of the same parameter", "P")
     rep.rule("R11.3", "re-applying the same frame changes nothing", "P")
+    rep.rule("R11.5", "one step is a function of (this frame, the row): the updater gets nothing decoded from earlier lines", "P")
     rep.rule("R11.4", "every parameter a format carries is written by frames of that format (in every option/state context)", "P")
+    # R11.5: the reduction of histories to steps assumes the reader hands the updater this line's digits and the frame
+    # decoded from exactly those digits (a decoded record reused across lines carries other aircraft's fields along)
+    try:
+        from ..effects import Effects
+        from ..lineexpr import updater_input_problems
+        from ..region import Region
+        reg = Region(facts, Effects(facts))
+        n5, probs = updater_input_problems(facts, reg)
+        for bi, cn, what in probs:
+            rep.oblige(False, ("updater-input", bi))
+            rep.add(Finding("R11.5", "updater input not derived from the current line alone",
+                            "%s receives %s: values decoded from earlier lines (possibly other aircraft) reach this row" % (cn, what), reg.loc(bi)))
+        rep.oblige(True, ("updater-inputs", n5))
+        rep.instances("R11.5", n5, floor=4, what="arguments of the table updater in the per-line region")
+    except Broken:
+        rep.instances("R11.5", 1, floor=0)
     out = k2_results(facts, tier)
     results = out["results"]
     n1 = n2 = n3 = n4 = 0
